@@ -475,6 +475,50 @@ func c14(r *Report) {
 			}
 			r.Decide("flow", "(*M/header.ViaModifier).hasLoop: compares the whole received-by token (name and boundary together)", okTok, "one comparison against the token built from requestedBy and boundary", "the received-by field is taken apart before comparing: a proxy whose name contains the separator never recognises its own Via entry", hl.Pos())
 		}
+		// a Via entry is taken apart at linear whitespace (RFC 7230 3.2.3: any run of spaces and
+		// tabs separates received-protocol, received-by and the comment): the parts that are
+		// indexed come from a regexp split whose pattern admits both characters and repeats, or
+		// from strings.Fields - not from a split at one literal separator
+		if hl := w.Fn("header", "ViaModifier.hasLoop"); hl != nil && hl.Blocks != nil {
+			nParts, okWS := 0, true
+			why := ""
+			for _, in := range instrs(hl) {
+				ia, isIa := in.(*ssa.IndexAddr)
+				if !isIa || ia.X.Type().String() != "[]string" {
+					continue
+				}
+				if k, isK := constInt(ia.Index); !isK || k != 1 {
+					continue
+				}
+				for _, l := range resolveAll(ia.X) {
+					c, isC := l.(*ssa.Call)
+					if !isC {
+						continue
+					}
+					nParts++
+					switch calleeName(c) {
+					case "strings.Fields":
+					case "(*regexp.Regexp).Split":
+						pat, found := "", false
+						for v := range w.backSlice(c.Call.Args[0], flowOpt{}) {
+							if mc, isMc := v.(*ssa.Call); isMc && (calleeName(mc) == "regexp.MustCompile" || calleeName(mc) == "regexp.Compile") {
+								if k, isK := constString(mc.Call.Args[0]); isK {
+									pat, found = k, true
+								}
+							}
+						}
+						if !found || !strings.Contains(pat, " ") || !(strings.Contains(pat, "\t") || strings.Contains(pat, `\t`) || strings.Contains(pat, `\s`)) || !(strings.Contains(pat, "+") || strings.Contains(pat, "*")) {
+							okWS = false
+							why = "pattern " + strconv.Quote(pat)
+						}
+					default:
+						okWS = false
+						why = calleeName(c)
+					}
+				}
+			}
+			r.Decide("table", "(*M/header.ViaModifier).hasLoop: a Via entry is taken apart at any run of spaces and tabs", nParts >= 1 && okWS, "regexp split on a class of space and tab, repeated (or strings.Fields)", "the fields of a Via entry are separated by one literal character ("+why+"): an entry written with a tab or two spaces between protocol and received-by is not recognised as this proxy's own and the loop goes undetected", hl.Pos())
+		}
 		// the entry the modifier stamps and the entry it recognises as its own are built
 		// from the same state: the receiver fields flowing into the Via value written are
 		// those flowing into the loop comparison (a name cached at construction while the
